@@ -352,6 +352,7 @@ def mon_c20(cases):
             if not simple or revoked_any:
                 continue
             prev = None
+            adopted_latest = {}
             for e in ev_list(ob):
                 a = e.get("a") or []
                 if e["k"] == "KDec" and a[0] and prev is not None:
@@ -371,8 +372,13 @@ def mon_c20(cases):
                     if key in loads and t <= loads[key] + p["RCI"] and a[2] * SEC + p["Expire"] >= t:
                         yield dict(what="latest key re-read from the metastore within one revoke-check interval of its last load", case=ci, op=i, finding=None)
                     loads[key] = t
+                    adopted_latest[a[0]] = key
                 elif e["k"] in ("MLoad", "MLoadLatest", "MStore"):
                     prev = None
+                    # a new key of this id is created in the same operation: the latest row read before was rejected (e.g. its parent
+                    # system key is expired) and never entered the cache, so a later first use of it is not a "repeat"
+                    if e["k"] == "MStore" and a[0] in adopted_latest:
+                        loads.pop(adopted_latest.pop(a[0]), None)
 
 
 MONITORS = {"C01": mon_c01, "C02": mon_c02, "C03": mon_c03, "C04": mon_c04, "C05": mon_c05, "C07": mon_c07,
